@@ -243,6 +243,11 @@ def impl(case):
     for step in range(case["len"]):
         U = [x for x in kv]
         op = case["ops"][step] if "ops" in case else rand_op(rnd, U, int(kv.degree))
+        if op["op"] == "normalize" and any(isinstance(x, int) for x in kv):
+            # int / int is a float in Python (allowed by C16's wording, outside the exact model):
+            # integer knots left by convert(int) are turned back into Fractions before a division
+            from fractions import Fraction
+            kv.convert(Fraction)
         # += / -= / *= forms are the same methods; exercise them through the operators too
         r = capture(lambda: _views(_apply(kv, op)))
         steps.append({"op": op, "r": r, "obs": _observe(kv)})
